@@ -409,6 +409,8 @@ class Interp:
                 raise NotModelled('GEN-5: unpacking of something that is not a pair: %s' % norm(target))
             for t, v in zip(target.elts, value[1]):
                 self.assign(t, v, p)
+        elif isinstance(target, ast.Attribute) and norm(target.value) == 'self' and target.attr not in ('value', 'type'):
+            pass        # bookkeeping on the parser object (the current rule name ...): reads of it are 'unknown' anyway
         else:
             raise NotModelled('GEN-5: assignment target not modelled: %s' % norm(target))
 
@@ -581,6 +583,10 @@ def gen_5(ctx, rep):
             n_paths += 1
             got = None
             for trace in _resolved_traces(p):
+                # the rule-level wrapper `NAME ':' rhs NEWLINE` (when it hands the fragment of its rhs through): the
+                # colon is no operator of the right-hand side language, so the frame is unambiguous
+                if len(trace) >= 4 and trace[1][1] == ':' and trace[-1][1] == 'NEWLINE':
+                    trace = trace[2:-1]
                 exp = _expected_regex(trace)
                 phrase = ' '.join(x if k != 'sub' else '<%s>' % x for k, x in trace)
                 if exp is None:
